@@ -579,23 +579,17 @@ func init() {
 			for pk := 0; pk < 3; pk++ {
 				pm2 := permuteOperands(rng, wc.m)
 				r2 := realWBuild(pm2.Proto())
+				// (the per-edge reading of intersections and exclusions, KF-C04-operand-grouping, is itself independent of
+				// the order of the operands of a union or intersection: no exemption here)
 				if (r2.Err != "") != (ref.Err != "") {
-					if !(wc.kf && c.Known.Open("KF-C04-operand-grouping")) {
-						c.OracleFail("c06:operand-order", map[string]any{"model": wc.canon, "permuted": canonModel(pm2.Proto())}, "permuting union/intersection operands changes the verdict", ref.Err+" / "+r2.Err)
-					} else {
-						c.KnownHit("KF-C04-operand-grouping", map[string]any{"model": wc.canon, "permuted": canonModel(pm2.Proto())})
-					}
+					c.OracleFail("c06:operand-order", map[string]any{"model": wc.canon, "permuted": canonModel(pm2.Proto())}, "permuting union/intersection operands changes the verdict", ref.Err+" / "+r2.Err)
 				} else if ref.Err == "" {
 					for n, w := range ref.Weights {
 						if strings.Contains(n, "@") {
 							continue
 						}
 						if sortedWeights(w) != sortedWeights(r2.Weights[n]) {
-							if wc.kf && c.Known.Open("KF-C04-operand-grouping") {
-								c.KnownHit("KF-C04-operand-grouping", map[string]any{"model": wc.canon, "permuted": canonModel(pm2.Proto())})
-							} else {
-								c.OracleFail("c06:operand-order", map[string]any{"model": wc.canon, "permuted": canonModel(pm2.Proto()), "relation": n}, "permuting union/intersection operands changes a relation's weights", "")
-							}
+							c.OracleFail("c06:operand-order", map[string]any{"model": wc.canon, "permuted": canonModel(pm2.Proto()), "relation": n}, "permuting union/intersection operands changes a relation's weights", "")
 							break
 						}
 					}
